@@ -609,6 +609,22 @@ func (fv *FV) havocObject(st *State, v Val, env *Env) {
 			id := fv.u.typeID(types.NewPointer(si.GoType))
 			h := fv.heapK(st, k, srt)
 			fv.setHeapK(st, k, srt, fmt.Sprintf("(ite (= (ityp %s) %d) (store %s %s %s) %s)", b.T, id, h, ref, fv.fresh("ifo", srt), h))
+			// ghost fields of that object change with it
+			if nt, ok := si.GoType.(*types.Named); ok {
+				var gks []string
+				for gk, gf := range fv.u.db.GFields {
+					if gf.Struct == nt.Obj().Name() {
+						gks = append(gks, gk)
+					}
+				}
+				sortStrings(gks)
+				for _, gk := range gks {
+					gf := fv.u.db.GFields[gk]
+					hk := "G_" + gf.Struct + "_" + gf.Name
+					gh := fv.ghostHeap(st, gf)
+					fv.setHeapK(st, hk, gf.Sort, fmt.Sprintf("(ite (= (ityp %s) %d) (store %s %s %s) %s)", b.T, id, gh, ref, fv.fresh("g_"+gf.Name, gf.Sort), gh))
+				}
+			}
 		}
 	default:
 		fv.specErr("modifies: unsupported target type %s", v.Typ)
